@@ -319,7 +319,14 @@ func rangeSource(c RangeCase) (string, map[string]int64) {
 var (
 	hangMu    sync.Mutex
 	hangCache = map[string]bool{}
+	// number of confirmed hangs per call shape. Every hanging case costs up to the
+	// full bound, so once a shape has produced hangBudget confirmed hangs in this
+	// process (they are reported), further cases of that shape are excluded and
+	// counted instead of executed; the search goes on in the other shapes.
+	hangShapes = map[string]int{}
 )
+
+const hangBudget = 6
 
 func rangeOracle(c RangeCase, o *h.Obs) *h.Fail {
 	src, vars := rangeSource(c)
@@ -408,12 +415,30 @@ func rangeOracle(c RangeCase, o *h.Obs) *h.Fail {
 		}
 	}
 
+	shape := fmt.Sprintf("argc=%d", len(c.Args)+len(c.Weird))
+	if !weird && !wantErr {
+		sign := "+"
+		if len(c.Args) == 3 && c.Args[2] < 0 {
+			sign = "-"
+		}
+		over := false
+		if len(want) > 0 && len(c.Args) == 3 {
+			over = !new(big.Int).Add(big.NewInt(want[len(want)-1]), big.NewInt(c.Args[2])).IsInt64()
+		}
+		shape += fmt.Sprintf(",step%s,next_term_overflows=%v,empty=%v", sign, over, len(want) == 0)
+	}
 	req := wreq{Src: src, Vars: vars}
 	hangMu.Lock()
 	known := hangCache[key]
+	spent := hangShapes[shape] >= hangBudget
 	hangMu.Unlock()
+	if spent && !known {
+		o.Classes = nil
+		o.Excluded = "range_shape_already_reported_hanging(" + shape + ")"
+		return nil
+	}
 	hangFail := func() *h.Fail {
-		return h.Failf("C19|range|hang", "source: %s   (args %v)\nthe call did not return: no answer within %v, or the live heap grew beyond 1 GiB, although the progression has at most 1000 elements (re-confirmed in a fresh process)", src, c.Args, hangBound)
+		return h.Failf("C19|range|hang", "source: %s   (args %v)\nthe call did not return: no answer within %v, or the live heap grew beyond 128 MiB, although the progression has at most 1000 elements (re-confirmed in a fresh process)", src, c.Args, hangBound)
 	}
 	if known {
 		return hangFail()
@@ -433,6 +458,7 @@ func rangeOracle(c RangeCase, o *h.Obs) *h.Fail {
 		case st2 == callTimeout || resp2.Runaway || (st2 == callOK && resp2.Ctx):
 			hangMu.Lock()
 			hangCache[key] = true
+			hangShapes[shape]++
 			hangMu.Unlock()
 			return hangFail()
 		case st2 == callDied:
